@@ -46,11 +46,19 @@ impl ClosestNodes {
 
     /// Add a node.
     pub fn add(&mut self, node: Node) {
-        let seek = node.id().xor(&self.target);
-
         if node.already_exists(&self.nodes) {
             return;
         }
+
+        self.insert_sorted(node);
+    }
+
+    /// Insert a node at its sorted position, without applying the per IP limits again.
+    ///
+    /// Used for nodes that were already admitted under these limits (a routing table's nodes),
+    /// where applying them a second time, in iteration order, would drop legitimate entries.
+    pub(crate) fn insert_sorted(&mut self, node: Node) {
+        let seek = node.id().xor(&self.target);
 
         if let Err(pos) = self.nodes.binary_search_by(|prope| {
             if prope.is_secure() && !node.is_secure() {
